@@ -310,6 +310,9 @@ class Analysis:
         r = self.resolve_name(fn.rel, name)
         if r and r[0] == "state":
             return frozenset({"S:" + self.sid(r[1], r[2])})
+        org = self.imports[fn.rel].get(name)
+        if r is None and org and not org.startswith("sharepoint2text") and org.split(".")[0] not in ("typing", "dataclasses", "abc", "enum"):
+            return frozenset({"X:" + org})               # an object of another library / the interpreter: shared by everybody
         return frozenset()
 
     def after(self, fn, use, store):
@@ -351,6 +354,11 @@ class Analysis:
             out = set()
             for x in e.elts:
                 out |= self.L(fn, x, at)
+            return frozenset(out)
+        if isinstance(e, (ast.List, ast.Set)):
+            out = set()
+            for x in e.elts:
+                out |= {l for l in self.L(fn, x, at) if l.startswith("X:")}     # a fresh container; external objects inside stay external
             return frozenset(out)
         if isinstance(e, (ast.IfExp,)):
             return self.L(fn, e.body, at) | self.L(fn, e.orelse, at)
@@ -556,8 +564,8 @@ class Analysis:
                     if p not in fn.mut or (definite and not fn.mut[p]):
                         fn.mut[p] = bool(definite) or fn.mut.get(p, False)
                         ch = True
-                elif record:
-                    self.events.append({"kind": "write" if l.startswith("S:") else "vmut", "state": l[2:], "fn": fn.key(), "node": node, "how": how,
+                elif record and (definite or l[0] != "X"):        # calling into a library is not a mutation of the library
+                    self.events.append({"kind": {"S": "write", "V": "vmut", "X": "xmut"}[l[0]], "state": l[2:], "fn": fn.key(), "node": node, "how": how,
                                         "definite": definite, "removal": removal, "key": key, "value": value, "rebind": rebind})
 
         for n in fn.own:
@@ -696,6 +704,9 @@ class Analysis:
     # ----------------------------------------------------------- queries --
     def writes(self, x):
         return [e for e in self.events if e["kind"] == "write" and e["state"] == x]
+
+    def xmuts(self):
+        return [e for e in self.events if e["kind"] == "xmut"]
 
     def vmuts(self, x):
         return [e for e in self.events if e["kind"] == "vmut" and e["state"] == x]
